@@ -1,7 +1,7 @@
 (* Properties_C13.v — property C13: coordination-graph maximisers return what they claim.
    Only statements, each closed by [exact <lemma>] and followed by Print Assumptions. *)
-From Coq Require Import List Arith QArith Lia.
-From AIT Require Import C13.Model C13.Spec C13.ProofsBase C13.ProofsGraph C13.Proofs C13.ProofsLS C13.ProofsMO1 C13.ProofsMO3 C13.ProofsMO5 C13.ProofsSqrt C13.ProofsUCVE.
+From Coq Require Import List Arith QArith Lia Reals Qreals.
+From AIT Require Import C13.Model C13.Spec C13.ProofsBase C13.ProofsGraph C13.Proofs C13.ProofsLS C13.ProofsMO1 C13.ProofsMO3 C13.ProofsMO5 C13.ProofsSqrt C13.ProofsUCVE C13.ProofsUCVEr.
 Import ListNotations.
 Local Open Scope nat_scope.
 
@@ -125,6 +125,62 @@ Print Assumptions uc_range_sound.
 Example ex_ucve_model :
   snd (ucve [2; 2; 2; 2] 2 [ (([0; 1], [1; 1]), [(-1 # 2)%Q; 1%Q]); (([2; 3], [1; 1]), [(-20 # 1)%Q; 100%Q]) ] [0; 1; 2; 3])
   = ((-1 # 2)%Q, 1%Q).
+Proof. vm_compute. reflexivity. Qed.
+
+(* ---- UCVE over the reals (Coq's Reals: the three standard-library axioms listed by Print Assumptions) ---- *)
+
+(* the comparison used by the model and by the oracle IS the order of  m + sqrt b  *)
+Theorem sqrt_sum_le_real : forall x p y q : Q, (0 <= p)%Q -> (0 <= q)%Q ->
+  (sqrt_sum_le x p y q = true <-> (Q2R x + sqrt (Q2R p) <= Q2R y + sqrt (Q2R q))%R).
+Proof. exact ssl_iff. Qed.
+Print Assumptions sqrt_sum_le_real.
+
+(* the pruning block of endFactorCrossSum never loses value: every entry e of the list keeps a
+   representative e' that is at least as good under EVERY extra variance X in [x_l, x_u] *)
+Theorem uc_prune_never_loses : forall L xl xu tmp, (0 <= L)%Q -> (0 <= xl)%Q ->
+  (forall e, In e tmp -> (0 <= e_b e)%Q) ->
+  forall e, In e tmp ->
+    exists e', In e' (uc_prune L xl xu tmp) /\ In e' tmp /\
+      forall X, (xl <= X)%Q -> (X <= xu)%Q ->
+        (Q2R (e_m e) + sqrt (Q2R ((e_b e + X) * L)) <= Q2R (e_m e') + sqrt (Q2R ((e_b e' + X) * L)))%R.
+Proof. exact uc_prune_sound. Qed.
+Print Assumptions uc_prune_never_loses.
+
+(* FULL STATEMENT (not proved):
+     ucve_optimal : forall A logtA rs order, 0 <= logtA -> rules well-formed with bonuses >= 0 ->
+       is_perm_seq (length A) order -> all A_i > 0 ->
+       let (act, (m, b)) := ucve A logtA rs order in
+       inr A act /\ (m, b) = (sum of means, sum of bonuses) of the rules compatible with act /\
+       forall a', inr A a' -> mean(a') + sqrt (bonus(a') * logtA / 2) <= m + sqrt (b * logtA / 2).
+   PROVED PART (ucve_optimal_partial): one elimination step never loses an optimum inside the
+   pruned cross-sum -- for every joint value of the neighbours, every action of the eliminated
+   agent and EVERY selection s of entries of the agent's factors, the pruned cross-sum still
+   contains an entry r that is at least as good as s under every extra variance X of the rest of
+   the graph with x_l <= X and X + bonus(s) <= x_u (x_u includes the agent's own factors, exactly as
+   the repaired beginRemoval computes it; the agent's factors not yet cross-summed are accounted
+   for by the shrinking range).
+   MISSING for the full statement: (1) the bound lemma "uc_bounds brackets the total bonus of every
+   selection of the other factors and the finished components" (from uc_range_sound, plus a
+   pigeon-hole argument that a factor with as many rules as local actions has no unmentioned
+   action, plus the finalMax/finalMin bookkeeping); (2) the induction over the elimination, i.e.
+   MInv of ProofsMO4 with soundness unchanged and completeness replaced by "for every joint action
+   some selection of the current factors is at least as good"; (3) makeResult (prune_dominator and
+   argmax_spec are the needed lemmas). *)
+Theorem ucve_optimal_partial : forall A L xl xu (Fv : list mo_node) (jv : list nat) (s : list mo_entry),
+  (0 <= L)%Q -> (0 <= xl)%Q ->
+  (forall nd x, In nd Fv -> In x (mden A nd jv) -> (0 <= e_b x)%Q) ->
+  Sel (map (fun nd => mden A nd jv) Fv) s -> s <> [] ->
+  exists r, In r (uc_cross_sum A L xl xu Fv jv) /\
+    forall X, (xl <= X)%Q -> (X + csum 1 s <= xu)%Q ->
+      (Q2R (csum 0 s) + sqrt (Q2R ((csum 1 s + X) * L)) <= Q2R (e_m r) + sqrt (Q2R ((e_b r + X) * L)))%R.
+Proof. exact uc_cross_sum_dom_lemma. Qed.
+Print Assumptions ucve_optimal_partial.
+
+(* non-vacuity: with L = 1 and bounds [0, 0] the pruning block drops the dominated entry (0, 1/4) and
+   the entry (1, 0), which cannot beat (0, 4): 1 + sqrt 0 <= 0 + sqrt 4 *)
+Example ex_uc_prune :
+  map fst (uc_prune 1 0 0 [ ([1%Q; 0%Q], ([0], [0])); ([0%Q; (1 # 4)%Q], ([0], [1])); ([0%Q; 4%Q], ([0], [2])) ])
+  = [[0%Q; 4%Q]].
 Proof. vm_compute. reflexivity. Qed.
 
 (* hypotheses are satisfiable on a non-trivial input: 3 agents (agent 2 unmentioned), overlapping
